@@ -59,6 +59,16 @@ fn run_crash(part: &mut Part, profiles: Vec<Profile>, cfgs: Vec<CrashCfg>) {
     part.stats.sample(|| json!("see bounds.crash_profiles; each history x each crash point x (second crash) x continuation was executed on the real code"));
 }
 
+/// In the real geometry (128 KiB files: every image copy costs) the quick tier keeps every
+/// `keep`-th seed only; the thorough tier and the 64-byte geometry use all of them.
+fn thin(seeds: Vec<Seed>, keep: usize, quick: bool) -> Vec<Seed> {
+    if !TINY && quick {
+        seeds.into_iter().step_by(keep).collect()
+    } else {
+        seeds
+    }
+}
+
 fn prof(name: &str, seeds: Vec<Seed>, alphabet: Vec<Op>, depth: usize) -> Profile {
     Profile {
         name: name.to_string(),
@@ -258,6 +268,7 @@ pub fn run(part: &mut Part) {
             let mut seeds = vec![seed_ab(), seed_two_files(), seed_gc_ready(), seed_empty_old(), seed_recreated()];
             seeds.extend(cursor_seeds(&[0, 3], &[0, 6, 7, 8, 19, 34]));
             seeds.extend(gc_spill_seeds());
+            let seeds = thin(seeds, 3, q);
             let mut aw = a_write();
             aw.push(Op::app(QA, Pos::Auto, Sz::XL));
             let profiles = if TINY {
@@ -291,6 +302,7 @@ pub fn run(part: &mut Part) {
             let mut seeds = vec![seed_empty(), seed_ab(), seed_two_files(), seed_gc_ready(), seed_empty_old()];
             seeds.extend(cursor_seeds(&[3], &[0, 8, 34]));
             seeds.extend(gc_spill_seeds().into_iter().take(4));
+            let seeds = thin(seeds, 3, q);
             let mut alpha = a_write();
             alpha.push(Op::Persist(false));
             alpha.push(Op::Persist(true));
@@ -454,6 +466,7 @@ pub fn run(part: &mut Part) {
             alpha.push(Op::Append { q: QB, pos: Pos::Auto, sizes: vec![Sz::N((2 * BLOCK + 5) as u32), Sz::N((BLOCK - 19) as u32), Sz::S3] });
             let mut seeds = vec![seed_empty(), seed_ab(), seed_two_files(), seed_recreated(), seed_recreated_from_zero(), seed_gc_ready()];
             seeds.extend(cursor_seeds(&[0, 1], &[0, 7, 8]));
+            let seeds = thin(seeds, 2, q);
             let profiles = vec![prof("seeds x (A_write + frame-shaped payload)", seeds, alpha, if TINY { if q { 1 } else { 2 } } else { 1 })];
             let descr: Vec<_> = profiles.iter().map(|p| p.describe()).collect();
             let stats = explore(&profiles, part.seed, |env, leaf| crate::damage::c08_leaf(env, leaf));
@@ -490,6 +503,7 @@ pub fn run(part: &mut Part) {
             alpha2.push(Op::app(QA, Pos::Auto, Sz::Emb));
             let mut seeds2 = vec![seed_empty(), seed_ab(), seed_two_files(), seed_recreated_from_zero()];
             seeds2.extend(cursor_seeds(&[0, 3], &[0, 7, 8]));
+            let seeds2 = thin(seeds2, 3, q);
             let profiles2 = vec![prof("seeds x A_write (in-place faults)", seeds2, alpha2, 1)];
             let descr2: Vec<_> = profiles2.iter().map(|p| p.describe()).collect();
             let stats = explore(&profiles2, part.seed, |env, leaf| crate::damage::c10_inplace_leaf(env, leaf));
@@ -498,7 +512,7 @@ pub fn run(part: &mut Part) {
             crate::damage::c10_crafted(part);
             part.bounds = json!({"image_profiles": descr, "structural_damage": format!("all sequences of 1..={} ops from the menu: zero / fill (FF, 01, pattern) a block, swap two blocks, copy a block over another, truncate a file to 0/1/B-1/B/B+1/F-1 bytes, remove a file, duplicate a file under the next number / under u64::MAX, swap two files, add stray files (foreign names, 23-char name, 20 digits overflowing u64, empty valid-named file)", kk),
                 "in_place": "the whole in-place fault menu of C08 (every byte x 14 values, zero ranges, every length-field value) on the images of inplace_fault_profiles, with this property's oracle",
-                "crafted": "CRC-valid Full frames whose entry fields range over type 0..5 x position {0,1,5,2^62,2^64-1} x queue {empty, a, non-UTF-8} x queue_len {exact, +1, 65535} x record {position 0/5/2^64-1} x {len 0, exact, +1, 2^32-1, short header}; all sequences of <= 2 entries (thorough: <= 3 over a reduced set)",
+                "crafted": "CRC-valid Full frames whose entry fields range over type 0..5 x position {0,1,5,2^62,2^64-1} x queue {empty, a, non-UTF-8} x queue_len {exact, +1, 65535} x record {position 0/5/2^64-1} x {len 0, exact, +1, 2^32-1, short header}; all sequences of <= 2 entries (thorough: <= 3 over a reduced set; real geometry quick: singles, and pairs over the reduced set)",
                 "oracles": "catch_unwind (engine and crate built with overflow-checks), deterministic tick budget 100000 (H3+H5 ticks), peak allocation <= 8 x directory bytes + 1 MiB, then every read accessor of a returned log"});
             part.stats.sample(|| json!({"image":"seed two-files + App(a,L)","damage_ops":["TruncFile(0,1)","DupFileMax(1)"]}));
             part.rule = "every image of the bound x every sequence of structural damage ops up to the stated length, and every sequence of crafted CRC-valid entries: open under catch_unwind + tick budget + allocation bound; a returned log has every read accessor called".into();
